@@ -10,6 +10,10 @@ pub mod c06;
 pub mod c07;
 pub mod c09;
 pub mod c10;
+#[cfg(feature = "full")]
+pub mod c14;
+#[cfg(feature = "full")]
+pub mod c15;
 
 pub fn build_info() -> String {
     let mut f: Vec<&str> = Vec::new();
@@ -37,6 +41,10 @@ pub fn subs(prop: &str) -> Vec<Box<dyn DynSub>> {
         "C07" => c07::subs(),
         "C09" => c09::subs(),
         "C10" => c10::subs(),
+        #[cfg(feature = "full")]
+        "C14" => c14::subs(),
+        #[cfg(feature = "full")]
+        "C15" => c15::subs(),
         _ => Vec::new(),
     }
 }
